@@ -431,7 +431,7 @@ fn setup_world() {
     }
     let repo = PathBuf::from(std::env::var("VERIF_REPO_DIR").unwrap_or_else(|_| "/repo".into())).join("geodesy");
     let mut grids: Vec<(String, Vec<u8>)> = vec![];
-    for (dir, name) in [("datum", "test.datum"), ("datum", "test_subset.datum"), ("geoid", "test.geoid"), ("gsb", "5458.gsb"), ("gsb", "5458_with_subgrid.gsb")] {
+    for (dir, name) in [("datum", "test.datum"), ("datum", "test_subset.datum"), ("geoid", "test.geoid"), ("gsb", "5458.gsb"), ("gsb", "5458_with_subgrid.gsb"), ("deformation", "test.deformation")] {
         let bytes = std::fs::read(repo.join(dir).join(name)).unwrap_or_else(|e| panic!("cannot read shipped grid {name}: {e}"));
         std::fs::write(w.join(dir).join(name), &bytes).expect("copy grid");
         grids.push((name.to_string(), bytes));
@@ -673,6 +673,36 @@ fn ref_apply(text: &str, fwd: bool, data: &mut Vec<Coor4D>) -> usize {
     })
 }
 
+/// Singleton results of `text` in the pristine reference context; None if it does not instantiate there
+fn ref_try_singletons(text: &str, fwd: bool, pr: &[Coor4D]) -> Option<Vec<Out>> {
+    REF.with(|r| {
+        let mut r = r.borrow_mut();
+        if r.is_none() {
+            let mut ctx = GridCtx::new();
+            for (name, bytes) in &world().grids {
+                ctx.add_grid_bytes(name, bytes).unwrap_or_else(|e| panic!("reference grid {name} does not decode: {e:?}"));
+            }
+            *r = Some(RefCtx { ctx, handles: HashMap::new() });
+        }
+        let rc = r.as_mut().unwrap();
+        let h = match rc.handles.get(text) {
+            Some(h) => *h,
+            None => {
+                let h = guard(|| rc.ctx.op(text)).ok()?.ok()?;
+                rc.handles.insert(text.to_string(), h);
+                h
+            }
+        };
+        let mut out = vec![];
+        for p in pr {
+            let mut one = vec![*p];
+            let c = guard(|| rc.ctx.apply(h, if fwd { Fwd } else { Inv }, &mut one)).ok()?;
+            out.push(Out { count: c.map_err(|e| format!("{e:?}")), data: bits(&one) });
+        }
+        Some(out)
+    })
+}
+
 /// Reference for grid operators: every tuple on its own, through a context whose grid object
 /// has just been decoded from the file bytes and has never served any other query. The result
 /// cannot depend on anything applied before, through whatever handle, context or thread.
@@ -882,7 +912,7 @@ impl<'a> Resolver<'a> {
                 // built-in?
                 let prim = match name.as_str() {
                     "addone" => Prim::Add1,
-                    "noop" => Prim::Noop,
+                    "noop" | "longlat" | "lonlat" | "latlon" | "latlong" => Prim::Noop,
                     "helmert" => Prim::Helm(Self::value(arg, env)?),
                     _ => return Err(Stop::Err(format!("unknown name '{name}'"))),
                 };
@@ -1163,6 +1193,9 @@ struct History {
     cmds: Vec<Cmd>,
 }
 
+/// built-in names the registry model gives a meaning to
+const MODELLED_BUILTINS: [&str; 7] = ["addone", "helmert", "noop", "longlat", "lonlat", "latlon", "latlong"];
+
 struct MCtx {
     any: AnyCtx,
     reg: Registry,
@@ -1311,8 +1344,8 @@ impl Hist {
                 let r = &self.ctxs[ci].reg;
                 if !name.contains(':') {
                     if r.ops.contains_key(name) {
-                        if ["addone", "helmert", "noop"].contains(&name.as_str()) { "builtin-shadowed-by-user-op".into() } else { "user-op".into() }
-                    } else if ["addone", "helmert", "noop"].contains(&name.as_str()) {
+                        if MODELLED_BUILTINS.contains(&name.as_str()) { "builtin-shadowed-by-user-op".into() } else { "user-op".into() }
+                    } else if MODELLED_BUILTINS.contains(&name.as_str()) {
                         "builtin".into()
                     } else {
                         "unknown-plain-name".into()
@@ -1879,7 +1912,7 @@ fn burst(w: &mut Hist, threads: u8, rounds: u8, seed: u16, side: bool, rec: &mut
     }
     let pr = probes();
     // ---- instantiations to be executed on other threads, decided (with their expectation) here
-    let lend = seed % 4 != 0;
+    let lend = seed % 2 == 1;
     let lc = (seed as usize / 4) % 3;
     let mut batches: [Vec<Prepared>; 2] = [vec![], vec![]];
     if lend {
@@ -2136,6 +2169,7 @@ const SIDE_DEFS: [&str; 6] = [
 // =====================================================================================
 
 const BUILTIN_NAMES: [&str; 3] = ["addone", "helmert", "noop"];
+const ALIAS_NAMES: [&str; 4] = ["longlat", "lonlat", "latlon", "latlong"];
 const PLAIN_NAMES: [&str; 3] = ["myop", "foo", "bar_2"];
 const COLON_NAMES: [&str; 5] = ["my:mac", "x:y", "p:q:r", "geo:in", "gis:out"];
 
@@ -2151,11 +2185,13 @@ fn pools() -> &'static Pools {
         let files: Vec<String> = world().items.iter().filter(|(_, m)| m.in_hist).map(|(k, _)| k.clone()).collect();
         let rep = |v: &[&str], n: usize| -> Vec<String> { v.iter().flat_map(|s| std::iter::repeat(s.to_string()).take(n)).collect() };
         let mut call = rep(&BUILTIN_NAMES, 5);
+        call.extend(rep(&ALIAS_NAMES, 1));
         call.extend(rep(&PLAIN_NAMES, 4));
         call.push("nosuchop".into());
         call.extend(rep(&COLON_NAMES, 3));
         call.extend(files.iter().cloned());
         let mut regop = rep(&BUILTIN_NAMES, 3);
+        regop.extend(rep(&ALIAS_NAMES, 1));
         regop.extend(rep(&PLAIN_NAMES, 3));
         regop.extend(rep(&["my:mac", "reg:a"], 1));
         let mut regres = rep(&COLON_NAMES, 4);
@@ -2297,6 +2333,211 @@ fn file_item_cases() -> Vec<History> {
 }
 
 // =====================================================================================
+// 7b. Every built-in name resolves to the built-in (exhaustive over the hook's name list)
+// =====================================================================================
+
+/// (name, a minimal valid parameterisation, needs grid access). Names the table does not know
+/// (new built-ins) are run without parameters: then only "the NAME is found" is asserted.
+const BUILTIN_TABLE: [(&str, &str, bool); 36] = [
+    ("adapt", "from=neuf_deg", false),
+    ("addone", "", false),
+    ("axisswap", "order=2,1", false),
+    ("btmerc", "k_0=0.9996 lon_0=9 x_0=500000", false),
+    ("butm", "zone=32", false),
+    ("cart", "", false),
+    ("curvature", "meridian", false),
+    ("deflection", "grids=test.geoid", true),
+    ("deformation", "dt=1000 grids=test.deformation", true),
+    ("dm", "", false),
+    ("dms", "", false),
+    ("geodesic", "", false),
+    ("gravity", "grs80", false),
+    ("gridshift", "grids=test.datum", true),
+    ("helmert", "x=5", false),
+    ("laea", "lat_0=52 lon_0=10", false),
+    ("latitude", "geocentric", false),
+    ("lcc", "lat_1=57 lon_0=12", false),
+    ("merc", "", false),
+    ("webmerc", "", false),
+    ("molodensky", "dx=-87 dy=-96 dz=-120 da=-251 df=-0.00001419", false),
+    ("omerc", "latc=4 lonc=115 alpha=53 k_0=0.99984", false),
+    ("permtide", "from=mean to=free", false),
+    ("somerc", "lat_0=46.95 lon_0=7.44", false),
+    ("tmerc", "lon_0=9", false),
+    ("unitconvert", "xy_in=deg xy_out=rad", false),
+    ("utm", "zone=32", false),
+    ("pipeline", "", false),
+    ("pop", "v_1", false),
+    ("push", "v_1", false),
+    ("stack", "push=1", false),
+    ("noop", "", false),
+    ("longlat", "", false),
+    ("latlon", "", false),
+    ("latlong", "", false),
+    ("lonlat", "", false),
+];
+const NOOP_ALIASES: [&str; 5] = ["noop", "longlat", "latlon", "latlong", "lonlat"];
+/// names the pipeline operator dispatches on by itself
+const PIPELINE_HANDLERS: [&str; 4] = ["pipeline", "pop", "push", "stack"];
+
+#[derive(Clone, Debug, Serialize, Deserialize)]
+struct BuiltinCase {
+    name: String,
+    plain: bool,
+    form: u8, // 0 stand-alone, 1 step of a pipeline, 2 body of a macro
+}
+
+fn is_name_not_found(e: &Error, name: &str) -> bool {
+    matches!(e, Error::NotFound(n, _) if n == name)
+}
+
+fn check_builtin(case: &BuiltinCase, rec: &mut Rec) -> CaseResult {
+    let name = case.name.as_str();
+    let form = ["stand-alone", "pipeline-step", "macro-body"][case.form as usize % 3];
+    let kind = if case.plain { "Plain" } else { "Minimal" };
+    let entry = BUILTIN_TABLE.iter().find(|t| t.0 == name);
+    let step = match entry {
+        Some((_, p, _)) if !p.is_empty() => format!("{name} {p}"),
+        _ => name.to_string(),
+    };
+    // the other step of the pipeline form must not be the operator under test
+    let (filler, filler_prim) = if name == "addone" { ("helmert x=1", Prim::Helm(1)) } else { ("addone", Prim::Add1) };
+    let def = match case.form % 3 {
+        0 => step.clone(),
+        1 => format!("{filler} | {step}"),
+        _ => "bi:mac".to_string(),
+    };
+    let make = || -> AnyCtx {
+        let mut c = AnyCtx::make(case.plain, true);
+        if case.form % 3 == 2 {
+            c.register_resource("bi:mac", &step);
+        }
+        c
+    };
+    let pr = probes();
+    let mut ctx = make();
+    // ---- (a) with no user registration the name must be FOUND (other constructor errors are not C18's business)
+    let r1 = guard(|| ctx.op(&def)).map_err(|p| Failure { key: format!("panic-op@{}", p.sig()), msg: format!("op({def:?}) panics: {} at {}:{}", p.msg, p.file, p.line) })?;
+    let mut h1 = None;
+    match r1 {
+        Err(e) if is_name_not_found(&e, name) => vfail!(
+            "builtin-name-not-found",
+            "{kind}: op({def:?}) ({form}) fails with {e:?}: the built-in operator name '{name}' (listed by builtin_operator_names()) is not found, no user operator or macro of that name is registered"
+        ),
+        Err(e) => {
+            rec.class(&format!("constructor-error:{name}"));
+            let expected_err = name == "pipeline" || (entry.map(|t| t.2).unwrap_or(false) && !case.plain) || entry.is_none();
+            if !expected_err {
+                rec.count("table_entry_rejected_by_constructor", 1);
+            }
+            let _ = e;
+        }
+        Ok(h) => {
+            rec.class(&format!("resolved:{form}"));
+            let fwd = singletons(&ctx, h, true, &pr)?;
+            let inv = singletons(&ctx, h, false, &pr)?;
+            // the operator instantiated is the one of that name
+            if case.form % 3 != 1 {
+                let pname = ctx.params(h, 0).map(|p| p.name).unwrap_or_default();
+                if pname != name {
+                    vfail!("builtin-resolved-to-something-else", "{kind}: op({def:?}) ({form}): params(handle, 0).name is '{pname}', expected '{name}'");
+                }
+            }
+            // documented behaviour
+            if NOOP_ALIASES.contains(&name) {
+                let node = match case.form % 3 {
+                    1 => Node::Seq { items: vec![Node::Leaf { prim: filler_prim.clone(), inverted: false }, Node::Leaf { prim: Prim::Noop, inverted: false }], inverted: false },
+                    _ => Node::Leaf { prim: Prim::Noop, inverted: false },
+                };
+                // independent of any reference: data untouched (pipeline: only the addone), count 1
+                for (j, p) in pr.iter().enumerate() {
+                    let mut want = *p;
+                    if case.form % 3 == 1 {
+                        want[0] += 1.;
+                    }
+                    let w = Out { count: Ok(1), data: bits(&[want]) };
+                    if fwd[j] != w {
+                        vfail!("noop-alias-changes-data", "{kind}: '{def}' ({form}) Fwd of {:?}: count {:?} {} - a noop alias must leave the data alone and count every tuple ({})", p, fwd[j].count, show_bits(&fwd[j].data), node.describe());
+                    }
+                }
+            } else if let (Some(mf), Some(mi)) = (ref_try_singletons(&if case.form % 3 == 1 { def.clone() } else { step.clone() }, true, &pr), ref_try_singletons(&if case.form % 3 == 1 { def.clone() } else { step.clone() }, false, &pr)) {
+                if mf != fwd || mi != inv {
+                    let j = (0..pr.len()).find(|j| mf[*j] != fwd[*j] || mi[*j] != inv[*j]).unwrap_or(0);
+                    vfail!(
+                        "builtin-behaviour-differs-from-reference-context",
+                        "{kind}: '{def}' ({form}) on probe tuple #{j} {:?}: Fwd count {:?} {} / Inv count {:?} {}; the same built-in in a pristine reference context: Fwd count {:?} {} / Inv count {:?} {}",
+                        pr[j], fwd[j].count, show_bits(&fwd[j].data), inv[j].count, show_bits(&inv[j].data), mf[j].count, show_bits(&mf[j].data), mi[j].count, show_bits(&mi[j].data)
+                    );
+                }
+                rec.count("compared_with_reference_context", 1);
+            } else {
+                rec.count("reference_context_does_not_instantiate", 1);
+            }
+            let st = static_part(&ctx, h)?;
+            h1 = Some((h, fwd, inv, st));
+        }
+    }
+    // ---- (b) a user operator of that name wins - for instantiations made afterwards
+    let in_pipeline_by_name = case.form % 3 == 1 && PIPELINE_HANDLERS.contains(&name);
+    let j = [0u8, 1, 2, 4, 5][(name.len() + case.form as usize) % 5];
+    ctx.register_op(name, ctor(j));
+    if in_pipeline_by_name {
+        // push/pop/stack steps are executed by the pipeline operator itself, by name: what a user
+        // operator of that name means inside a pipeline is not documented
+        rec.count("excluded_unspecified_pipeline_handler_shadowing", 1);
+    } else {
+        let r2 = guard(|| ctx.op(&def)).map_err(|p| Failure { key: format!("panic-op@{}", p.sig()), msg: format!("op({def:?}) panics: {} at {}:{}", p.msg, p.file, p.line) })?;
+        let h2 = match r2 {
+            Ok(h) => h,
+            Err(e) => vfail!("user-op-does-not-shadow-builtin", "{kind}: after register_op({name:?}, U{j}) op({def:?}) ({form}) fails: {e:?}"),
+        };
+        let user = Node::Leaf { prim: Prim::User { c: j, d: 0 }, inverted: false };
+        let node = if case.form % 3 == 1 { Node::Seq { items: vec![Node::Leaf { prim: filler_prim.clone(), inverted: false }, user], inverted: false } } else { user };
+        let lib = singletons(&ctx, h2, true, &pr)?;
+        let (m, _) = model_singletons(&node, true, &pr);
+        let libi = singletons(&ctx, h2, false, &pr)?;
+        let (mi, _) = model_singletons(&node, false, &pr);
+        if lib != m || libi != mi {
+            vfail!(
+                "user-op-does-not-shadow-builtin",
+                "{kind}: after register_op({name:?}, U{j}: +{} on element {}) op({def:?}) ({form}) gives Fwd {} / Inv {}, the user operator would give Fwd {} / Inv {}",
+                UC[j as usize].0, UC[j as usize].1, show_outs(&lib), show_outs(&libi), show_outs(&m), show_outs(&mi)
+            );
+        }
+        rec.class(&format!("shadowed:{form}"));
+    }
+    // ---- (c) ... and only for those: the operator instantiated before is unchanged
+    if let Some((h, fwd, inv, st)) = &h1 {
+        let fwd2 = singletons(&ctx, *h, true, &pr)?;
+        let inv2 = singletons(&ctx, *h, false, &pr)?;
+        let st2 = static_part(&ctx, *h)?;
+        if &fwd2 != fwd || &inv2 != inv || &st2 != st {
+            vfail!("handle-changed-after-register_op", "{kind}: '{def}' ({form}) instantiated BEFORE register_op({name:?}, ..) changed: Fwd {} -> {}, Inv {} -> {}, steps {:?} -> {:?}", show_outs(fwd), show_outs(&fwd2), show_outs(inv), show_outs(&inv2), st.0, st2.0);
+        }
+    }
+    // ---- (d) ... and only in that context
+    let mut other = make();
+    match guard(|| other.op(&def)) {
+        Ok(Ok(h3)) => {
+            if let Some((_, fwd, _, _)) = &h1 {
+                if &singletons(&other, h3, true, &pr)? != fwd {
+                    vfail!("registration-leaked-to-other-context", "{kind}: '{def}' ({form}) in a fresh context behaves differently after register_op({name:?}, ..) in ANOTHER context");
+                }
+            }
+        }
+        Ok(Err(e)) => {
+            if h1.is_some() || is_name_not_found(&e, name) {
+                vfail!("registration-leaked-to-other-context", "{kind}: op({def:?}) ({form}) in a fresh context fails with {e:?} after register_op({name:?}, ..) in another context; it resolved before");
+            }
+        }
+        Err(p) => vfail!(format!("panic-op@{}", p.sig()), "op({def:?}) panics: {} at {}:{}", p.msg, p.file, p.line),
+    }
+    rec.class(&format!("name:{name}"));
+    rec.nontrivial(&(name.to_string(), case.plain, case.form));
+    Ok(())
+}
+
+// =====================================================================================
 // 8. main
 // =====================================================================================
 
@@ -2323,18 +2564,32 @@ fn main() {
         run_history,
     );
 
+    // every built-in name x {Minimal, Plain} x {stand-alone, pipeline step, macro body}
+    let names: Vec<String> = geodesy::verif_hooks::builtin_operator_names().iter().map(|s| s.to_string()).collect();
+    let uncovered: Vec<&String> = names.iter().filter(|n| !BUILTIN_TABLE.iter().any(|t| t.0 == n.as_str())).collect();
+    run.note("builtin_names", serde_json::json!(names.len()));
+    run.note("builtin_names_without_parameter_table_entry", serde_json::json!(uncovered));
+    let nn = names.len();
+    run.enumerate(
+        "builtin-names",
+        "EVERY name of verif_hooks::builtin_operator_names() x {Minimal, Plain} x {stand-alone definition, step of a pipeline, body of a macro}, minimal valid parameters per operator: with no user registration the NAME must be found (any error other than NotFound(name) is a constructor matter and only counted), params().name is that name, noop aliases leave data alone and count every tuple, other operators behave as in a pristine reference context; after register_op(name) later instantiations get the user operator (bitwise, both directions), the earlier handle is unchanged, a fresh context is unaffected",
+        nn * 6,
+        move |i| BuiltinCase { name: names[i % nn].clone(), plain: (i / nn) % 2 == 1, form: (i / (2 * nn)) as u8 },
+        check_builtin,
+    );
+
     let general = Profile { grid_w: 2, w: [4, 12, 14, 10, 24, 8, 5, 4, 3, 2, 3, 14, 2], max_len: if run.is_thorough() { 100 } else { 40 } };
-    let n = run.scale(6_000, 45_000);
+    let n = run.scale(5_000, 45_000);
     run.section(
         "histories",
-        "random histories (3..=40 commands, thorough 100) over 3 context slots (Minimal/Plain, new/default) with names from all classes (built-in, plain, with ':', file based); non-trivial = a registration AFTER an instantiation that looked up the same name in the same context, or a cache clear / grid file removal while a grid operator is live, or a concurrent burst with live handles (in 3 of 4 bursts a context is lent to two newly created threads in turn, which instantiate operators in it and in contexts of their own); distinct by command/name signature",
+        "random histories (3..=40 commands, thorough 100) over 3 context slots (Minimal/Plain, new/default) with names from all classes (built-in, plain, with ':', file based); non-trivial = a registration AFTER an instantiation that looked up the same name in the same context, or a cache clear / grid file removal while a grid operator is live, or a concurrent burst with live handles (in every second burst a context is lent to two newly created threads in turn, which instantiate operators in it and in contexts of their own); distinct by command/name signature",
         n,
         move || arb_history(general),
         run_history,
     );
 
     let gridp = Profile { grid_w: 14, w: [5, 5, 8, 5, 24, 8, 3, 15, 10, 8, 8, 5, 14], max_len: if run.is_thorough() { 80 } else { 30 } };
-    let n = run.scale(4_000, 30_000);
+    let n = run.scale(3_500, 30_000);
     run.section(
         "grid-cache-histories",
         "histories dominated by grid operators (shipped and history-private grid files, both search paths), Plain::clear_grids, grid file removal, new contexts and concurrent bursts with a side thread clearing the process-wide cache; non-trivial as above",
